@@ -38,7 +38,7 @@ def OVERFLOW_HEADER_SIZE : Nat := 4
 /-- nomt/src/beatree/allocator/free_list.rs:9: `const MAX_PNS_PER_PAGE: usize = (PAGE_SIZE - 6) / 4;` -/
 def FREELIST_MAX_PNS_PER_PAGE : Nat := 1022
 
-/-- nomt/src/beatree/allocator/mod.rs:172: `const GROW_STORE_BY_PAGES: u32 = 8192;` -/
+/-- nomt/src/beatree/allocator/mod.rs:175: `const GROW_STORE_BY_PAGES: u32 = 8192;` -/
 def GROW_STORE_BY_PAGES : Nat := 8192
 
 /-- nomt/src/beatree/branch/mod.rs:4: `pub const BRANCH_NODE_SIZE: usize = 4096;` -/
@@ -92,7 +92,7 @@ def SEGLOG_HEADER_SIZE : Nat := 12
 /-- nomt/src/seglog/mod.rs:41: `const MAX_RECORD_PAYLOAD_SIZE: u32 = 1 << 30;` -/
 def SEGLOG_MAX_RECORD_PAYLOAD_SIZE : Nat := 1073741824
 
-/-- nomt/src/lib.rs:59: `const MAX_COMMIT_CONCURRENCY: usize = 64;` -/
+/-- nomt/src/lib.rs:61: `const MAX_COMMIT_CONCURRENCY: usize = 64;` -/
 def MAX_COMMIT_CONCURRENCY : Nat := 64
 
 /-- nomt/src/store/meta.rs:8: `pub(crate) const MAGIC: [u8; 4] = *b"NOMT";` read as a little-endian u32 -/
@@ -173,7 +173,7 @@ def META_BYTES_PER_PAGE : Nat := 4096
 /-- nomt/src/bitbox/mod.rs:677: `allocate_bucket`: gives up when its counter reaches this value -/
 def ALLOCATE_BUCKET_ATTEMPTS : Nat := 10000
 
-/-- nomt/src/bitbox/mod.rs:737: `ProbeSequence::next`: `step > 2 * len` => `Exhausted` -/
+/-- nomt/src/bitbox/mod.rs:784: `ProbeSequence::next`: `step > 2 * len` => `Exhausted` -/
 def PROBE_BOUND_FACTOR : Nat := 2
 
 end Nomt.Gen
